@@ -5,10 +5,10 @@ import numpy as np, pandas as pd
 from core import Result
 import proto, gen, implutil
 
-THEOREMS = ['C14_fit_no_stale_state', 'C14_shorthand', 'C14_reduce', 'C14_history_independence', 'C14_settings_history', 'C14_edges', 'C14_attr', 'C14_failed_fit', 'C14_table_kept', 'C14_translated_methods', 'C14_rebound_slots', 'C14_group_mirror', 'C14_group_model_refit', 'C14_group_settings']
+THEOREMS = ['C14_fit_no_stale_state', 'C14_shorthand', 'C14_reduce', 'C14_history_independence', 'C14_settings_history', 'C14_edges', 'C14_attr', 'C14_failed_fit', 'C14_table_kept', 'C14_plot', 'C14_translated_methods', 'C14_rebound_slots', 'C14_group_mirror', 'C14_group_model_refit', 'C14_group_settings']
 RULE = ("random histories (4..10 operations) on one Bycycle object: construct (both burst methods, both centrings, thresholds given with full or SHORTHAND names or None, "
         "find_extrema_kwargs, return_samples) / fit on one of three signals / recompute_edges(reduction) / load / in-place threshold edit / threshold rebinding / burst option edit / "
-        "attribute access; after every fit df_features must equal compute_features called on FRESH copies of the object's current settings (shorthand expanded), after "
+        "attribute access / plot; after every fit df_features must equal compute_features called on FRESH copies of the object's current settings (shorthand expanded), after "
         "recompute_edges(r) the functional recompute_edges with every *_threshold lowered by r, attribute access must return the table's columns, and the dictionaries held by "
         "the object must be unchanged by fit / recompute; the driver's Lean expandShorthand / reduceThresholds are compared with the object's; the whole history is also run through the Lean object machine (obj.trace): outcome, stored dictionaries, stored signal after every operation, and the table must equal the model's provenance term (cf / rc / loaded) evaluated with the functional API (histories include 2-D fits, reads of absent attributes, edge recomputation without a table, rebinding to shorthand names); "
         "BycycleGroup: fits (and refits on arrays of another shape) of 2-D / 3-D arrays of pairwise different signals, models[i][j] against sigs[i, j] and df_features[i][j]; distinct = distinct histories; non-trivial = at least two fits or a fit after an edit")
@@ -134,7 +134,7 @@ def generate(ctx):
             th = None if u < 0.15 else {('burst_fraction' if rng.random() < 0.5 else 'burst_fraction_threshold'): float(rng.choice([0.5, 0.8, 1.0])), 'min_n_cycles': int(rng.choice([1, 3]))}
         ops = []
         for _ in range(int(rng.integers(4, 11))):
-            k = str(rng.choice(['fit', 'fit', 'fit', 'edges', 'edges', 'edit', 'rebind', 'editbk', 'attr', 'attrkey', 'load', 'fit2d', 'rebind_short']))
+            k = str(rng.choice(['fit', 'fit', 'fit', 'edges', 'edges', 'edit', 'rebind', 'editbk', 'attr', 'attrkey', 'load', 'fit2d', 'rebind_short', 'plot']))
             if k == 'fit': ops.append(['fit', int(rng.integers(3))])
             elif k == 'edges': ops.append(['edges', [None, 0.1, 0.3][int(rng.integers(3))]])
             elif k == 'edit':
@@ -145,6 +145,7 @@ def generate(ctx):
             elif k == 'attr': ops.append(['attr'])
             elif k == 'attrkey': ops.append(['attrkey', str(rng.choice(['period', 'is_burst', 'sample_peak', 'sample_trough', 'volt_amp', 'burst_fraction', 'monotonicity', 'no_such_column']))])
             elif k == 'fit2d': ops.append(['fit2d'])
+            elif k == 'plot': ops.append(['plot'])
             elif k == 'rebind_short': ops.append(['rebind_short', float(rng.choice([0.3, 0.6]))])
             else: ops.append(['load', int(rng.integers(3))])
         cases.append(dict(seed=int(rng.integers(1 << 30)), method=method, center=str(rng.choice(['peak', 'trough'])), th=th,
@@ -205,6 +206,8 @@ def _group(c):
             if not get(idx).df_features.equals(exp): return 'after the group recompute_edges models%s is not the edge recomputation of its table with ITS thresholds' % list(idx)
             t = bg.df_features[idx[0]] if len(shp) == 1 else bg.df_features[idx[0]][idx[1]]
             if idx != first and not get(idx).df_features.equals(t): return 'after the group recompute_edges models%s.df_features is no longer df_features%s' % (list(idx), list(idx))
+        if not ((len(shp) == 1 and f['axis'] == '0') or (len(shp) == 2 and f['axis'] == 'a01')):
+            return None          # (with epochs - 2-D axis None, 3-D axis 0 / 1 - the tables are epochs of a flattened analysis, not single-signal analyses)
         # the same history through the Lean group machine (BycycleModel/GroupMachine.lean, driver command group.trace): positions in row-major
         # order; the provenance terms of the models' tables and of the group's own tables, evaluated with the functional API
         from bycycle.features import compute_features
@@ -358,6 +361,17 @@ def evaluate(ctx, cases):
                         implutil.quiet(bm.fit, np.vstack([sigs[0], sigs[1]]), fs, fr); fail('fit accepted a 2-D array')
                     except ValueError:
                         outcome = 'raised'
+                elif op[0] == 'plot':
+                    mop = '[plot]'
+                    import matplotlib.pyplot as _plt
+                    try:
+                        implutil.quiet(bm.plot, xlim=(0.0, 2.0), plot_only_results=bool(opi % 2))
+                    except ValueError:
+                        outcome = 'raised'
+                    except Exception:
+                        outcome = 'done' if (bm.df_features is not None and bm.sig is not None) else 'raised'       # (a drawing error of its own is C20's subject)
+                    finally:
+                        _plt.close('all')
                 elif op[0] == 'attrkey':
                     mop = '[attr,%s]' % op[1]
                     try:
